@@ -761,6 +761,22 @@ theorem stepCtx_clean (p : Prog) (k : Cache) (c : Ctx) (op : Op) (hk : Consisten
       have h4 := core_dropTmps (c2.refdown v) (c2.refdown v).tmps
       have h3 : (c2.refdown v).core = c2.core := rfl
       exact clean_of_core (h4.1.trans (h3.trans ((core_of_skel h2.1).trans h1))) h4.2 hc
+  | calls fname texts =>
+    simp only [stepCtx]
+    have h1 := core_mkArgs c (texts.map Arg.tmp)
+    generalize mkArgs c (texts.map Arg.tmp) = r1 at h1
+    obtain ⟨c1, vs⟩ := r1
+    have h2 := skel_callByName p c1 k fname vs hk
+    generalize callByName p c1 k fname vs = r2 at h2
+    obtain ⟨c2, k1, r⟩ := r2
+    simp only at h1 h2 ⊢
+    refine ⟨?_, h2.2⟩
+    have h4 := core_dropTmps c2 c2.tmps
+    cases r with
+    | none => exact clean_of_core (h4.1.trans ((core_of_skel h2.1).trans h1)) h4.2 hc
+    | some v =>
+      have h3 : ((dropTmps c2 c2.tmps).refdown v).core = (dropTmps c2 c2.tmps).core := rfl
+      exact clean_of_core (c' := (dropTmps c2 c2.tmps).refdown v) (h3.trans (h4.1.trans ((core_of_skel h2.1).trans h1))) h4.2 hc
   | loop =>
     simp only [stepCtx]
     have h2 := skel_loop p c k hk
@@ -928,6 +944,18 @@ theorem stepCtx_nc (hk₁ : Consistent p k₁) (hk₂ : Consistent p k₂) (c : 
     simp only at h
     obtain ⟨rfl, rfl⟩ := h
     exact ⟨rfl, rfl⟩
+  | calls fname texts =>
+    simp only [stepCtx]
+    generalize mkArgs c (texts.map Arg.tmp) = r1
+    obtain ⟨c1, vs⟩ := r1
+    have h := callByName_nc hk₁ hk₂ c1 fname vs
+    generalize callByName p c1 k₁ fname vs = a at h
+    generalize callByName p c1 k₂ fname vs = b at h
+    obtain ⟨ca, ka, ra⟩ := a
+    obtain ⟨cb, kb, rb⟩ := b
+    simp only at h
+    obtain ⟨rfl, rfl⟩ := h
+    exact ⟨rfl, rfl⟩
   | loop =>
     simp only [stepCtx]
     have h := loop_nc hk₁ hk₂ c
@@ -964,6 +992,14 @@ theorem stepCtx_consistent (p : Prog) (k : Cache) (c : Ctx) (op : Op) (hk : Cons
   | call fname args =>
     simp only [stepCtx]
     generalize mkArgs c args = r1
+    obtain ⟨c1, vs⟩ := r1
+    have h2 := skel_callByName p c1 k fname vs hk
+    generalize callByName p c1 k fname vs = r2 at h2
+    obtain ⟨c2, k1, r⟩ := r2
+    exact h2.2
+  | calls fname texts =>
+    simp only [stepCtx]
+    generalize mkArgs c (texts.map Arg.tmp) = r1
     obtain ⟨c1, vs⟩ := r1
     have h2 := skel_callByName p c1 k fname vs hk
     generalize callByName p c1 k fname vs = r2 at h2
